@@ -17,13 +17,13 @@ RULE = ("1-8 timer systems with start in [-12,50] or far future, end in {forever
         "injected; non-trivial = >=1 system with start != 0 and frequency > 1 fired >=2 times and >=1 system was "
         "registered after its start; distinct = multiset of (start, end-class, frequency, registration offset) plus "
         "the advance pattern"
-        "; also: removal and re-registration (other window, same id), systems registered by other systems from inside a step (also inside execute(n)), str-subclass ids, systems with value-based __eq__, falsy systems, window bounds given as numpy.int64")
+        "; also: removal and re-registration (other window, same id), systems registered by other systems from inside a step (also inside execute(n)), str-subclass ids, systems with value-based __eq__, falsy systems, window bounds given as numpy.int64, a system whose execute() lets an exception (incl. StopIteration) escape")
 COMPONENTS = {"real": ["ECAgent.Core.SystemManager.execute_systems (activation predicate, clock)", "ECAgent.Core.Model.execute",
                        "Model.timestep forwarding"],
               "stub": ["System.execute bodies are harness recorders"]}
 PROBES = ["fired_at_end", "silent_after_end", "negative_start", "end_before_start", "late_registration_out_of_phase",
           "late_registration_in_phase", "bad_n_rejected", "freq_beyond_horizon", "bare_execute_systems", "reregistered_after_removal", "registered_from_inside_a_step",
-          "registered_inside_multi_step_request", "str_subclass_id", "numpy_int_window", "falsy_systems"]
+          "registered_inside_multi_step_request", "str_subclass_id", "numpy_int_window", "falsy_systems", "system_failure_reached_the_caller"]
 TECHNIQUE = "deterministic simulation: model clock stepped through the real scheduler vs a reference timer wheel and a single-stepped twin model"
 LEVEL_TEXT = ("Seeded search over timer windows, registration instants and advance patterns; every firing of every timestep is "
               "compared with the predicate start<=t<=end and (t-start)%f==0, the clock with the count of accepted steps, "
@@ -105,10 +105,16 @@ def generate(rng, tier):
             f = systems[by]["freq"]
             t = max(0, systems[by]["start"]) + f * rng.randint(0, max(1, horizon // (2 * f)))   # a firing instant of the spawner
             spawns.append({"by": by, "t": min(t, horizon - 1), "k": k})
+    raises = None
+    if rng.random() < 0.08:
+        # one system's execute() lets an exception escape at some timestep (a bare next() on an exhausted iterator, a
+        # missing key ...): either the caller sees it, or - if the request returns normally - nothing due was skipped
+        raises = {"k": rng.randrange(n), "t": rng.randint(0, max(1, horizon // 2)),
+                  "exc": rng.choice(["StopIteration", "StopIteration", "KeyError", "ValueError", "GeneratorExit", "LookupError"])}
     for s in systems:
         if rng.random() < 0.12:      # window bounds that are numpy integers (taken out of an array, say)
             s["np"] = rng.choice([["start"], ["start"], ["start", "end"], ["freq"], ["start", "end", "freq"], ["end"]])
-    return dict({"systems": systems, "ops": ops, "spawns": spawns}, **gen_flavour(rng))
+    return dict({"systems": systems, "ops": ops, "spawns": spawns, "raises": raises}, **gen_flavour(rng))
 
 
 class SID(str):
@@ -127,6 +133,10 @@ def npify(spec):
     return out
 
 
+RAISES = {"StopIteration": StopIteration, "KeyError": KeyError, "ValueError": ValueError, "GeneratorExit": GeneratorExit,
+          "LookupError": LookupError}
+
+
 class World:
     def __init__(self, model, sc=None):
         self.model = model
@@ -136,10 +146,17 @@ class World:
         self.systems = (sc or {}).get("systems", [])
         self.spawns = (sc or {}).get("spawns", [])
         self.rec_cls = rec_class(sc or {})
+        self.raises = (sc or {}).get("raises")
+        self.armed = False
 
     def on_execute(self, s):
         t = self.model.systems.timestep
         self.log.append((t, s.id))
+        r = self.raises
+        if self.armed and r and self.systems and t >= r["t"] and self.systems[r["k"] % len(self.systems)]["id"] == s.id:
+            self.armed = False
+            self.raised = True
+            raise RAISES[r["exc"]](f"scripted failure of {s.id} at t={t}")
         for sp in self.spawns:
             if sp["t"] == t and self.systems and self.systems[sp["by"] % len(self.systems)]["id"] == s.id:
                 spec = spec_defaults(self.systems[sp["k"] % len(self.systems)])
@@ -153,6 +170,8 @@ class World:
 def execute(sc, ctx):
     m, twin = Model(seed=20260927), Model(seed=20260927)
     w, wt = World(m, sc), World(twin, sc)
+    w.armed = bool(sc.get("raises"))        # the twin never fails
+    w.raised = wt.raised = False
     ref = RefSched()
     systems = sc["systems"]
     fired = {}
@@ -167,10 +186,19 @@ def execute(sc, ctx):
     def advance(n, how):
         before = len(w.log)
         t0 = ref.t
-        if how == "bare":
-            ctx.expect_ok("execute_systems", m.systems.execute_systems)
-        else:
-            ctx.expect_ok("execute", m.execute, n)
+        w.raised = False
+        try:
+            st, v = ctx.call(m.systems.execute_systems) if how == "bare" else ctx.call(m.execute, n)
+        except GeneratorExit as e:          # (a BaseException: ctx.call does not catch it)
+            st, v = "exc", e
+        if st != "ok":
+            # only the scripted failure may escape, and it must be the very exception the system raised
+            ctx.check(w.raised and isinstance(v, RAISES[w.raises["exc"]]), f"{how}:unexpected-exception", f"{type(v).__name__}: {v}")
+            ctx.probe("system_failure_reached_the_caller")
+            return True      # what a failed request leaves behind is not constrained: the scenario ends here
+        if w.raised:
+            ctx.probe("system_failure_swallowed_by_the_scheduler")
+            wt.armed = False
         for _ in range(n):
             ctx.expect_ok("twin-step", twin.execute)
         new = w.log[before:]
@@ -266,13 +294,15 @@ def execute(sc, ctx):
             if ref.t + n > 200:
                 continue
             advs.append(n)
-            advance(n, "adv")
+            if advance(n, "adv"):
+                break
         elif kind == "bare":
             if ref.t + 1 > 200:
                 continue
             advs.append(0)
             ctx.probe("bare_execute_systems")
-            advance(1, "bare")
+            if advance(1, "bare"):
+                break
         elif kind == "bad":
             v, exc = BAD[op["v"]] if op["v"] in BAD else BAD["zero"]
             before = len(w.log)
